@@ -448,7 +448,10 @@ class Function:
         finally:
             try:
                 if task in cls.task2cb:
-                    for callback, info in cls.task2cb[task]["cb"].items():
+                    # a done callback may add or remove callbacks of this task: iterate over a snapshot
+                    for callback, info in list(cls.task2cb[task]["cb"].items()):
+                        if callback not in cls.task2cb[task]["cb"]:
+                            continue
                         ast_ctx, args, kwargs = info
                         try:
                             await ast_ctx.call_func(callback, None, *args, **kwargs)
